@@ -253,7 +253,7 @@ def write_replay(pid, v):
     return os.path.join("replays", name)
 
 
-def finish(ctx, level, rule, t0, assumptions=(), coverage_extra=None):
+def finish(ctx, level, rule, t0, assumptions=(), coverage_extra=None, write_evidence=True):
     cov = {
         "evaluations": ctx.evaluations,
         "distinct_nontrivial": len(ctx.nontrivial),
@@ -278,9 +278,10 @@ def finish(ctx, level, rule, t0, assumptions=(), coverage_extra=None):
         "wall_s": round(time.time() - t0, 2),
         "violations": len(ctx.violations),
     }
-    os.makedirs(os.path.join(OUT, "evidence"), exist_ok=True)
-    with open(os.path.join(OUT, "evidence", ctx.pid + ".json"), "w") as f:
-        json.dump(ev, f, indent=1, sort_keys=True)
+    if write_evidence:  # a --replay run re-evaluates one saved case; it is not evidence of coverage
+        os.makedirs(os.path.join(OUT, "evidence"), exist_ok=True)
+        with open(os.path.join(OUT, "evidence", ctx.pid + ".json"), "w") as f:
+            json.dump(ev, f, indent=1, sort_keys=True)
     for sig, entry in ctx.known.items():
         print(f"KNOWN-FINDING: property={ctx.pid} {entry['what_fails']} [signature={sig} seen={ctx.known_hits.get(sig, 0)}]")
     print(
